@@ -1247,6 +1247,21 @@ class Models(object):
         if name == 'clear' and not args:
             path.heap[('dict', dv.did)] = ()
             return [(path, NONE)]
+        if name == 'update' and len(args) <= 1:
+            from .sym import VDictLit as _VDL
+            new = []
+            if args:
+                if not isinstance(args[0], _VDL):
+                    raise Unsupported('dict.update(%r)' % (args[0],))
+                new.extend(path.heap[('dict', args[0].did)])
+            new.extend((ex.lift_obj(k), v) for k, v in (kw or {}).items())
+            states = [path]
+            for k, v in new:
+                nxt = []
+                for p in states:
+                    nxt.extend(p2 for p2, _ in ex.setitem(p, dv, k, v))
+                states = nxt
+            return [(p, NONE) for p in states]
         raise Unsupported('dict method %s' % name)
 
     def map_method(self, ex, path, mv, name, args, kw):
